@@ -32,6 +32,8 @@ type Sink struct {
 	Fired    int
 	Err      *InjectedError
 	LastCall int // index of last call
+	// OnCall, if set, runs at the start of every sink call (scheduling point).
+	OnCall func()
 }
 
 // NewSink creates a sink.
@@ -65,6 +67,9 @@ func (w byteSink) WriteByte(c byte) error {
 }
 
 func (s *Sink) write(p []byte) (int, error) {
+	if s.OnCall != nil {
+		s.OnCall()
+	}
 	s.Calls++
 	fail := s.Plan.FailAt > 0 && (s.Calls == s.Plan.FailAt || (s.Plan.Forever && s.Calls > s.Plan.FailAt))
 	if fail {
@@ -110,6 +115,8 @@ type Source struct {
 	// BareFired counts calls that returned the error without any data.
 	BareFired int
 	EOFs      int
+	// OnCall, if set, runs at the start of every source call (scheduling point).
+	OnCall func()
 }
 
 // NewSource creates a source.
@@ -123,6 +130,9 @@ func (s *Source) Offset() int { return s.off }
 func (s *Source) Read(p []byte) (int, error) {
 	if len(p) == 0 {
 		return 0, nil
+	}
+	if s.OnCall != nil {
+		s.OnCall()
 	}
 	s.Calls++
 	if s.failed {
